@@ -7,6 +7,29 @@ from .. import lib
 from .version import bv, mval
 
 
+def _pointer_summaries(P):
+    """Arc = pointer to a heap cell ($nodeN), Weak = the same pointer, RwLock transparent; clones copy the pointer."""
+    heapn = [0]
+    def arc_new(se, env, pc, v):
+        heapn[0] += 1; cell = '$node%d' % heapn[0]; env[cell] = v
+        return lib.one(env, Ref(cell))
+    P[r'(?:Arc|Rc|Box)::new'] = arc_new          # replaces the transparent default: nodes are shared, aliasing matters
+    P[r'parking_lot::lock_api::RwLock::new'] = lib.ident; P[r'RwLock::new'] = lib.ident
+    def one_hop(se, env, pc, x, *rest):
+        # clone of a pointer: the pointer itself (one dereference of the `&Arc` argument), never the pointee
+        v = lib.get_at(env[x.local], x.path) if isinstance(x, Ref) else x
+        n = 0
+        while isinstance(v, Ref) and not str(v.local).startswith('$node') and n < 8:
+            v = lib.get_at(env[v.local], v.path); n += 1
+        return lib.one(env, v)
+    P[r'<(?:Arc|Rc|Box)<.*> as Clone>::clone'] = one_hop; P[r'Arc::clone'] = one_hop
+    P[r'Arc::downgrade'] = one_hop
+    P[r'(?:std::sync::)?Weak::upgrade'] = lambda se, env, pc, w: lib.one(env, Enum('Some', (one_hop(se, env, pc, w)[0][1],)))
+    P[r'<(?:std::sync::)?Weak<.*> as Clone>::clone'] = one_hop
+    P[r'<Option<.*> as Clone>::clone'] = one_hop
+    return one_hop
+
+
 def _sequences(maxlen):
     """Operation sequences as lists of (op, arg); op 'remove' names a position of the list at that moment."""
     def rec(prefix, size):
@@ -39,24 +62,7 @@ def o11_5_linked_list(mir, tier):
     for seq in seqs:
         S = lib.std_summaries(); P = S['$patterns']
         lib.combinator_summaries(P)
-        heapn = [0]
-        def arc_new(se, env, pc, v):
-            heapn[0] += 1; cell = '$node%d' % heapn[0]; env[cell] = v
-            return lib.one(env, Ref(cell))
-        P[r'(?:Arc|Rc|Box)::new'] = arc_new          # replaces the transparent default: nodes are shared, aliasing matters
-        P[r'parking_lot::lock_api::RwLock::new'] = lib.ident; P[r'RwLock::new'] = lib.ident
-        def one_hop(se, env, pc, x, *rest):
-            # clone of a pointer: the pointer itself (one dereference of the `&Arc` argument), never the pointee
-            v = lib.get_at(env[x.local], x.path) if isinstance(x, Ref) else x
-            n = 0
-            while isinstance(v, Ref) and not str(v.local).startswith('$node') and n < 8:
-                v = lib.get_at(env[v.local], v.path); n += 1
-            return lib.one(env, v)
-        P[r'<(?:Arc|Rc|Box)<.*> as Clone>::clone'] = one_hop; P[r'Arc::clone'] = one_hop
-        P[r'Arc::downgrade'] = one_hop
-        P[r'(?:std::sync::)?Weak::upgrade'] = lambda se, env, pc, w: lib.one(env, Enum('Some', (one_hop(se, env, pc, w)[0][1],)))
-        P[r'<(?:std::sync::)?Weak<.*> as Clone>::clone'] = one_hop
-        P[r'<Option<.*> as Clone>::clone'] = one_hop
+        _pointer_summaries(P)
         ex = Exec(mir, S, loop_bound=L + 4)
         elems = [BitVec('element%d' % i, 64) for i in range(len(seq))]
         def run(i, env, pc, ref, nodes, ex=ex, seq=seq, elems=elems):
@@ -125,3 +131,75 @@ def o11_5_confirm(v, out):
     if out.get('_rc') != 0: return (True, 'native list panicked: %s' % out.get('_stderr', '')[-200:])
     return (out.get('order') != out.get('expected') or out.get('len') != out.get('expected_len') or out.get('ends') != out.get('expected_ends'),
             'native: iter() yields [%s], expected [%s]; len %s / %s; ends %s / %s' % (out.get('order'), out.get('expected'), out.get('len'), out.get('expected_len'), out.get('ends'), out.get('expected_ends')))
+
+
+def o3_4_snapshot_list(mir, tier):
+    """SnapshotList (built on the linked list above, executed for real): every sequence of <= 3 (thorough: 4) operations
+    new_snapshot(next sequence number, non-decreasing) / delete_snapshot(any live snapshot).  Reference: oldest() is the live
+    snapshot taken first (smallest sequence number - the bound below which a compaction may drop shadowed entries, O3.2a),
+    newest() the one taken last, is_empty() iff none is live."""
+    M = lambda n: mir.method('SnapshotList', n)
+    fns = {n: M(n) for n in ('new', 'new_snapshot', 'delete_snapshot', 'is_empty', 'oldest', 'newest')}
+    L = 3 if tier == 'quick' else 4
+    def seqs_of(maxlen):
+        def rec(prefix, size):
+            yield prefix
+            if len(prefix) == maxlen: return
+            yield from rec(prefix + [('new', len(prefix))], size + 1)
+            for i in range(size): yield from rec(prefix + [('delete', i)], size - 1)
+        return [s for s in rec([], 0) if s]
+    seqs = seqs_of(L)
+    res = Result('O3.4 SnapshotList: oldest / newest live snapshot', [f.path for f in fns.values()] + ['LinkedList::push / remove_node / head / tail / is_empty, Snapshot::new / inner (inlined)'],
+                 'all %d sequences of length <= %d over new_snapshot (non-decreasing free sequence numbers) and delete_snapshot(any live snapshot)' % (len(seqs), L))
+    t0 = time.time()
+    nf = mir.struct_fields('Node')
+    from z3 import ULE
+    for seq in seqs:
+        S = lib.std_summaries(); P = S['$patterns']
+        lib.combinator_summaries(P)
+        _pointer_summaries(P)
+        ex = Exec(mir, S, loop_bound=L + 4)
+        nums = [BitVec('sequence%d' % i, 64) for i in range(len(seq))]
+        news = [i for i, (o, a) in enumerate(seq) if o == 'new']
+        pre = [ULE(nums[news[j]], nums[news[j + 1]]) for j in range(len(news) - 1)]
+        def seq_of(ex, env, node):
+            v = node
+            while isinstance(v, Ref): v = ex.deref(env, v)
+            e = v[nf.index('element')] if isinstance(v, dict) else None
+            return e[0] if isinstance(e, dict) else e
+        def run(i, env, pc, live, ex=ex, seq=seq, nums=nums):
+            if i == len(seq): return check(env, pc, live, ex, seq)
+            op, arg = seq[i]
+            if op == 'new':
+                return ex.run_fn(fns['new_snapshot'], [Ref('$sl'), nums[i]], env, pc, lambda r, e2, p2: run(i + 1, e2, p2, live + [(nums[i], r)]))
+            return ex.run_fn(fns['delete_snapshot'], [Ref('$sl'), live[arg][1]], env, pc, lambda r, e2, p2: run(i + 1, e2, p2, live[:arg] + live[arg + 1:]))
+        def check(env, pc, live, ex, seq):
+            def with_empty(em, e1, p1):
+                posts = [('is_empty() is wrong about whether a snapshot is live', em == BoolVal(len(live) == 0))]
+                def fin(old, new, e3, p3):
+                    if live:
+                        posts.append(('oldest() is not the live snapshot that was taken first (a compaction bounded by it would drop entries an older snapshot still reads)', seq_of(ex, e3, old) == live[0][0]))
+                        posts.append(('newest() is not the live snapshot that was taken last', seq_of(ex, e3, new) == live[-1][0]))
+                    res.cases['%d ops' % len(seq)] = res.cases.get('%d ops' % len(seq), 0) + 1
+                    for label, post, m in ex.check_posts(posts, p3):
+                        res.violations.append({'label': label, 'ops': [list(o) for o in seq], 'live': len(live), 'replay': ['snapshot_list'] + ['%s:%d' % (o, a) for o, a in seq]})
+                if not live: return fin(None, None, e1, p1)
+                ex.run_fn(fns['oldest'], [Ref('$sl')], e1, p1, lambda old, e2, p2: ex.run_fn(fns['newest'], [Ref('$sl')], e2, p2, lambda new, e3, p3: fin(old, new, e3, p3)))
+            ex.run_fn(fns['is_empty'], [Ref('$sl')], env, pc, with_empty)
+        def created(sl, env, pc):
+            e = dict(env); e['$sl'] = sl; run(0, e, pc, [])
+        ex.top(fns['new'], [], {'$state': {}}, pre, created)
+        res.absorb(ex)
+        for pcx, msg, where in ex.panics:
+            ex.solver.push(); ex.solver.add(*pre); ex.solver.add(*[c for c in pcx if not isinstance(c, bool)]); feas = str(ex.solver.check()) == 'sat'; ex.solver.pop()
+            if feas: res.panic_paths += 1; res.violations.append({'label': 'panic path: ' + msg[:80], 'ops': [list(o) for o in seq], 'replay': ['snapshot_list'] + ['%s:%d' % (o, a) for o, a in seq]})
+    res.wall_s = time.time() - t0
+    if res.violations: res.status = 'violation'
+    return res
+
+
+def o3_4_confirm(v, out):
+    """Native: the same operations through DB::get_snapshot / release_snapshot with a write between the snapshots; a manual compaction
+    then runs and every live snapshot must still read the value it saw."""
+    if out.get('_rc') != 0: return (True, 'native run panicked: %s' % out.get('_stderr', '')[-200:])
+    return (out.get('wrong', '0') != '0', 'native: after a full compaction %s of %s live snapshots read another value than when they were taken (first: %s)' % (out.get('wrong'), out.get('live'), out.get('first_wrong')))
